@@ -183,6 +183,8 @@ func (h *H) fracTokens(dict [][]byte, nRandom int) []tok {
 		{}, {from: str("a"), to: str("b"), incFrom: true}, {from: str("ab"), incFrom: false}, {to: str("abc"), incTo: true},
 		{from: str("10"), to: str("100"), incFrom: true, incTo: true}, {from: str("-5"), to: str("5.5")}, {from: str("10")}, {to: str("0"), incTo: true},
 		{from: str("10"), to: str("b")}, {from: str("1e2"), to: str("1e3"), incFrom: true}, {from: str(""), to: str("a"), incTo: true},
+		{from: str("1.5"), to: str("1.9"), incFrom: true, incTo: true}, {from: str("1.5"), to: str("19.5")}, {from: str("-2.5"), to: str("-1.5"), incTo: true},
+		{from: str("2.25"), to: str("2.75"), incFrom: true}, {from: str("1e0"), to: str("1e1")}, {from: str("n1"), to: str("n2")}, {from: str("0.5"), to: nil},
 	} {
 		toks = append(toks, tok{r: r})
 	}
@@ -218,8 +220,45 @@ func (h *H) fracTokens(dict [][]byte, nRandom int) []tok {
 	return toks
 }
 
+// fracDictNum: a dictionary dominated by numbers in many spellings ("1.7", "+1.7", "01.70", "17e-1", "1.7e0", ...)
+// so that the numeric region itself spans several token blocks.
+func fracDictNum(seed int64, n int) [][]byte {
+	r := vh.NewRNG(seed*104729 + int64(n))
+	set := map[string]bool{"": true, "a": true, "1.5": true, "1.9": true, "+1.7": true, "01.75": true}
+	for len(set) < n {
+		x := float64(r.Range(-3000, 3000)) / 100
+		s := strconv.FormatFloat(x, 'f', r.Range(0, 3), 64)
+		switch r.Intn(7) {
+		case 0:
+			if x >= 0 {
+				s = "+" + s
+			}
+		case 1:
+			if x >= 0 {
+				s = strings.Repeat("0", r.Range(1, 3)) + s
+			}
+		case 2:
+			s = strconv.FormatFloat(x*10, 'f', 1, 64) + "e-1"
+		case 3:
+			s += "e0"
+		case 4:
+			s = "n" + s // not a number
+		}
+		set[s] = true
+	}
+	keys := vh.SortedKeys(set)
+	res := make([][]byte, len(keys))
+	for i, k := range keys {
+		res[i] = []byte(k)
+	}
+	return res
+}
+
 func (h *H) runFrac(env *fracEnv, seed int64, n int, toks []tok, only bool) {
 	dict := fracDict(seed, n)
+	if n%10 == 1 { // sizes ending in 1 select the number-heavy dictionary (kept in the replay line through n)
+		dict = fracDictNum(seed, n)
+	}
 	if toks == nil {
 		toks = h.fracTokens(dict, h.o.Pick(60, 400))
 	}
@@ -281,9 +320,9 @@ func (h *H) genFrac() {
 		return
 	}
 	defer env.close()
-	sizes := []int{5, 60, 2500}
+	sizes := []int{5, 60, 2500, 5001}
 	if h.o.Thorough() {
-		sizes = []int{1, 5, 60, 700, 2500, 6000, 20000}
+		sizes = []int{1, 5, 60, 700, 2500, 5001, 6000, 12001, 20000}
 	}
 	for rep := 0; rep < h.o.Pick(1, 3); rep++ {
 		for i, n := range sizes {
